@@ -131,6 +131,22 @@ def rule_flow_mono(ctx):
         if p.get("k") == "If" and p.get("cond") is u:
             reads.append(p)
             continue
+        # the flag is the value of a later-extracted helper (`fn run(..) -> bool { let mut success = true; for .. {..} success }`) whose
+        # result is bound to a local: the reads of that local are the reads of the flag
+        cur_ = u
+        par_ = p
+        while par_ is not None and ((par_.get("k") == "Block" and par_.get("expr") is cur_ and "mac_src" not in par_) or
+                                    (par_.get("k") in ("DropTemps", "Use") and par_.get("e") is cur_) or
+                                    (par_.get("inlined") is cur_ and par_.get("k") in ("Call", "MethodCall"))):
+            cur_ = par_
+            par_ = pm.get(id(cur_))
+        if cur_ is not u and par_ is not None and par_.get("k") == "LetStmt" and par_.get("init") is cur_ and par_.get("pat", {}).get("p") == "Bind":
+            lid2 = par_["pat"]["id"]
+            uses2 = hq.uses_of(b["body"], lid2)
+            conds2 = [pm.get(id(u2)) for u2 in uses2]
+            if uses2 and all(c2 is not None and c2.get("k") == "If" and c2.get("cond") is u2 for c2, u2 in zip(conds2, uses2)):
+                reads.extend(conds2)
+                continue
         odd.append(hq.render(p))
     ctx.add("FLOW-MONO", "single-read", len(reads) == 1 and not odd, site, "flag is read exactly once, un-negated, as an `if` condition (other uses: %s)" % odd)
     if len(reads) == 1:
@@ -140,7 +156,8 @@ def rule_flow_mono(ctx):
         ctx.add("FLOW-MONO", "success-branch", "success" in t_l.lower() and "success" not in e_l.lower() and "else" in r, ctx.site(b, r),
                 "true-branch prints the success message, false-branch the failure message", construct={"then": t_l, "else": e_l})
         # the read comes after the loop (same block, later statement)
-        ctx.add("FLOW-MONO", "read-after-loop", r.get("line", 0) > loop[0].get("line", 0), site, "verdict is read after the result loop")
+        order_ = {id(n_): i_ for i_, n_ in enumerate(walk(b["body"]))}      # pre-order: a helper's statements sit where it is called
+        ctx.add("FLOW-MONO", "read-after-loop", id(r) not in loop_ids and order_.get(id(r), -1) > order_.get(id(loop[0]), 10 ** 9), site, "verdict is read after the result loop")
     # the loop body, evaluated symbolically: the flag after one iteration as a decision tree over the prover result
     from .. import sym, leaves
     _, iterable, pat, body = loop
@@ -404,8 +421,15 @@ def rule_bytes(ctx):
     arg_id = local_id_of(pa["args"][0])
     lets = hq.let_by_id(b["body"])
     chain_methods = []
-    root_id = arg_id
     seen = 0
+    if arg_id is None:
+        # the argument is itself a chain on the list (`prove_all(problems.into_iter().inspect(..))`)
+        root0, chain0 = hq.method_chain(pa["args"][0])
+        if local_id_of(root0) is not None:
+            arg_id = local_id_of(root0)
+            chain_methods = [c["method"] for c in chain0]
+            seen = 1
+    root_id = arg_id
     while root_id in lets and seen < 5:
         seen += 1
         init = lets[root_id].get("init")
